@@ -393,6 +393,7 @@ FILE *simfs_open(const char *path, const char *mode)
 
 extern "C" FILE *__wrap_fopen(const char *path, const char *mode)
 {
+    if (g_sim.in_lib <= 0) return __real_fopen(path, mode);	// not the library under test (e.g. the coverage runtime writing its counters)
     return simfs_open(path, mode);
 }
 
@@ -404,7 +405,8 @@ extern "C" void sim_error_fn(const char *message, void *arg, vnaerr_category_t c
     g_sim.in_lib = 0;
     g_sim.callbacks.push_back(CallbackRec{(int)category, message ? message : "(null)", e, arg});
     g_sim.in_lib = depth;
-    errno = e;
+    // a real error function prints, and printing changes errno
+    errno = g_sim.cb_errno_mode == 1 ? 0 : g_sim.cb_errno_mode == 2 ? ENOTTY : g_sim.cb_errno_mode == 3 ? EINTR : e;
 }
 
 // ------------------------------------------------------------------ sanitizer hooks
